@@ -26,3 +26,21 @@ pub fn callsite(v: &Value) -> Value {
     };
     json!({"ok": r.is_ok(), "error": r.err().map(|e| e.to_string())})
 }
+
+/// K4: {cwd, options: [..]}: the real find_repository started in `cwd` with the user's global options; real git
+/// then reports the directory (relative to the work tree root) in which the kept option vector makes it run
+pub fn repo_root(v: &Value) -> Value {
+    std::env::set_current_dir(v["cwd"].as_str().unwrap()).unwrap();
+    let opts: Vec<String> = v["options"].as_array().unwrap().iter().map(|x| x.as_str().unwrap().to_string()).collect();
+    match git_ai::git::repository::find_repository(&opts) {
+        Err(e) => json!({"ok": false, "error": e.to_string()}),
+        Ok(repo) => {
+            let mut args = repo.global_args_for_exec();
+            let kept = args.clone();
+            args.push("rev-parse".to_string());
+            args.push("--show-prefix".to_string());
+            let o = std::process::Command::new("git").args(&args).output().unwrap();
+            json!({"ok": true, "kept": kept, "prefix": String::from_utf8_lossy(&o.stdout).trim().to_string(), "git_ok": o.status.success()})
+        }
+    }
+}
